@@ -1,7 +1,7 @@
 (* Bridge: the flag bytes generated on every run from client.py (_send_publish's `command = ...` and every
    statement of _send_connect that assigns connect_flags, the clean-flag selection included; Gen/GenPubCmd.v,
    Gen/GenConnFlags.v, cut out by tools/py2v/specs/packets.py) equal the hand model of Packets.v. *)
-From PahoV Require Import Base.Prelude Codec.Wire Codec.Packets Gen.GenPubCmd Gen.GenConnFlags.
+From PahoV Require Import Base.Prelude Codec.Wire Codec.Packets Gen.GenPubCmd Gen.GenConnFlags Gen.GenSendPublishCalls.
 
 Lemma publish_command_bridge fuel dup qos retain :
   gen_publish_command fuel (b2z dup) qos (b2z retain) = Ok (publish_command dup qos retain).
@@ -27,3 +27,20 @@ Proof.
   cbn [c_clean c_will c_username c_password].
   destruct v, cs, first, cls, will, user, pw; reflexivity.
 Qed.
+
+(* Every call site of _send_publish in class Client (publish() itself, the CONNACK retransmission loop, the release
+   from the in-flight window in _update_inflight) hands the encoder the stored message's own fields: each of
+   mid, topic, payload, qos, retain, dup, properties receives the message attribute of the same name (1) or publish()'s
+   local for it (2); info may be absent (0).  So the packet written later for a stored message is
+   encode_publish of the arguments that were given to publish(), with dup as the session set it. *)
+Definition send_publish_call_ok (row : list Z) : bool :=
+  match row with
+  | [mid; topic; payload; qos; retain; dup; info; props] =>
+      forallb (fun c => (c =? 1) || (c =? 2)) [mid; topic; payload; qos; retain; dup; props]
+      && ((info =? 0) || (info =? 1) || (info =? 2))
+  | _ => false
+  end.
+
+Lemma send_publish_calls_ok :
+  forallb send_publish_call_ok gen_send_publish_calls = true /\ (6 <= length gen_send_publish_calls)%nat.
+Proof. split; [vm_compute; reflexivity | cbn; lia]. Qed.
